@@ -444,6 +444,8 @@ class Verdict:
         self.violations = []
         self.known = {}
         os.makedirs(os.path.join(OUT, prop), exist_ok=True)
+        for old in glob.glob(os.path.join(OUT, prop, "viol-*.json")):      # replay files of earlier runs
+            os.remove(old)
 
     def candidate(self, scen_sig, what, replay_obj):
         """scen_sig: dict describing the scenario class (matched against known findings)."""
